@@ -501,3 +501,73 @@ pub fn gen_server(r: &mut Rng, hostile: bool, steps: usize) -> Vec<Tree> {
     ops.push(l(vec![n(27u8)]));
     ops
 }
+
+/// r-pair, slice stress: sliced reliable messages, a resend interval that elapses between flushes, so
+/// that every slice travels in several packets; the network delivers a subset with duplicates and the
+/// acknowledgements come back late, doubled or not at all; then it heals and everything must arrive.
+pub fn gen_slice_stress(r: &mut Rng) -> Vec<Tree> {
+    let mut ops = vec![];
+    let resend = *r.pick(&[50 * MS, 100 * MS]);
+    let mut cfg = vec![ChanCfg { id: 0, max: 200_000, ty: *r.pick(&[1u8, 2]), resend_ns: resend }];
+    if r.chance(1, 2) {
+        cfg.push(ChanCfg { id: 1, max: 200_000, ty: *r.pick(&[1u8, 2]), resend_ns: *r.pick(&[0u64, 50 * MS]) });
+    }
+    if r.chance(1, 3) {
+        cfg.push(ChanCfg { id: 2, max: 40_000, ty: 0, resend_ns: 0 });
+    }
+    let budget = *r.pick(&[6000u64, 60_000, 60_000]);
+    let (a, bb) = (Ep::Conn(0), Ep::Conn(1));
+    ops.push(op_newconn(0, budget, &cfg, &cfg));
+    ops.push(op_newconn(1, budget, &cfg, &cfg));
+    ops.push(op_pair(a, bb));
+    let mut pl = Payloads::new();
+    let rounds = r.range(2, 5);
+    for _ in 0..rounds {
+        let (s, o) = if r.chance(3, 4) { (a, bb) } else { (bb, a) };
+        let mut est = 0usize;
+        for _ in 0..r.range(1, 3) {
+            let c = r.pick(&cfg).clone();
+            let len = if r.chance(4, 5) { *r.pick(&[1201usize, 2400, 2401, 3000, 3601, 4800, 6000]) } else { r.range(1, 900) as usize };
+            est += len / 1200 + 1;
+            ops.push(op_send(s, c.id, &pl.make(r, len)));
+        }
+        // every slice goes out two or three times
+        let copies = r.range(2, 3) as usize;
+        for _ in 0..copies {
+            ops.push(op_flush(s));
+            ops.push(op_update(s, resend + *r.pick(&[0u64, 1, MS])));
+            ops.push(op_update(o, resend));
+        }
+        // a subset reaches the peer, some of it twice, in any order
+        let window = est * copies + 2;
+        for _ in 0..r.range(est as u64, (window + est) as u64) {
+            let back = r.below(window as u64) as usize;
+            ops.push(op_deliver(s, o, back));
+            if r.chance(1, 5) {
+                ops.push(op_deliver(s, o, back));
+            }
+        }
+        // acknowledgements: sometimes all of them, sometimes the older ones only, sometimes doubled
+        for _ in 0..r.range(0, 2) {
+            ops.push(op_flush(o));
+        }
+        for _ in 0..r.range(0, 4) {
+            ops.push(op_deliver(o, s, r.below(3) as usize));
+        }
+        if r.chance(1, 2) {
+            ops.push(op_update(s, *r.pick(&[0u64, resend, 3 * resend])));
+            ops.push(op_flush(s));
+            for _ in 0..r.range(0, est as u64) {
+                ops.push(op_deliver(s, o, r.below(est as u64 + 1) as usize));
+            }
+        }
+        if r.chance(1, 2) {
+            let c = r.pick(&cfg).clone();
+            ops.push(op_drain(o, c.id));
+        }
+    }
+    ops.push(l(vec![n(64u8), ep_tree(a), ep_tree(bb), n(40u8)]));
+    ops.push(op_status(a));
+    ops.push(op_status(bb));
+    ops
+}
